@@ -57,7 +57,7 @@ with tr_alts (l : galts) : re :=
 
 Definition p_mem (m : bmem) : str :=
   match m with
-  | MEsc c => [92; c]%N
+  | MEsc c => if peg_escaped_alnum_plain && is_alnum c then [c] else [92%N; c]
   | MOpen => [92; 91]%N
   | MRaw c => [c]
   end.
